@@ -16,7 +16,7 @@ RULE = ("sequences of 1-3 comparison constraints on one PCSO: integer-valued spi
         "spin images of the boolean special forms, whose coefficients are dyadic), six relations, log_trick both ways, bounds "
         "omitted / exact / loose / one-sided, lam in {1, 2, 1/2, 7/4, 0}; non-trivial = >= 2 spins and neither always "
         "satisfied nor unsatisfiable; distinct by canonical JSON")
-THEOREMS = "C03_constraint, C03_valid_iff, C03_sequence, C03_ancilla_blocks"
+THEOREMS = "C03_constraint, C03_valid_iff, C03_sequence, C03_ancilla_blocks, C03_ancilla_bound"
 MODELLED = "as C02; the boolean/spin conversions multiply by float constants, exact on the dyadic coefficients generated"
 COQ_TAGF = None
 REL, RELC, HOLDS = c02.REL, c02.RELC, c02.HOLDS
